@@ -29,7 +29,7 @@ func init() {
 	core.Register(&core.Check{
 		ID:    "C19",
 		Level: "model_checking",
-		Rule: "all histories of <=1 (thorough <=2) earlier programs followed by a program under test over an alphabet of 18 programs (define a variable, read it, shadow a built-in name, use a built-in, raise `_` on different lines, touch Either's abstract props, raise at depth 2, syntax error, intern new symbols via evalEnv, print, read stdin, iterate, user error, error inside native code, inspect built-in prototypes), " +
+		Rule: "all histories of <=1 (thorough <=2) earlier programs followed by a program under test over an alphabet of 40 programs (incl. pairs that raise the same run-time error from different source positions) (define a variable, read it, shadow a built-in name, use a built-in, raise `_` on different lines, touch Either's abstract props, raise at depth 2, syntax error, intern new symbols via evalEnv, print, read stdin, iterate, user error, error inside native code, inspect built-in prototypes), " +
 			"each history in a new process, under 2 reuse drivers (playground: one const env, one enclosed scope per program - the call sequence of web/wasm/executor.go; `pangaea test`: runscript.RunTest over a generated directory); " +
 			"oracle: (stdout, value, error message, stack trace) of the program under test equals its observation alone in a new process; states = histories, transitions = program evaluations; " +
 			"non-trivial = every history of length >=1; distinct = distinct (driver, history, program)",
@@ -72,6 +72,26 @@ var alphabet = []prog{
 	{Name: "define-func-and-call", Src: "helper := {|x| x * 2}\nhelper(21)"},
 	{Name: "expand-builtins-in-call", Src: "show := {|| \\_.keys.len > 3}\n[show(**Int, **{marker: \"set\"}), show(**Kernel, **{marker2: 1}, **{marker3: 2})]"},
 	{Name: "lookup-markers", Src: "[3['marker], Int['marker], Obj['marker], Kernel['marker2], 1.try.{|x| x.marker}.err?]"},
+	// the same run-time error raised by two different programs (different lines / texts): the report of the
+	// later one must not contain anything of the earlier one
+	{Name: "err-anon-chain-v1", Src: "helperA := {|| .secretOfA}\n\"\".try.{helperA()}.err?", Fails: false},
+	{Name: "err-anon-chain-v2", Src: "x := 1\ny := 2\n.propOfB", Fails: true},
+	{Name: "err-undefined-var-v1", Src: "undefinedInA", Fails: true},
+	{Name: "err-undefined-var-v2", Src: "q := 1\n[q, undefinedInB]", Fails: true},
+	{Name: "err-noprop-v1", Src: "1.noSuchPropA", Fails: true},
+	{Name: "err-noprop-v2", Src: "z := {a: 1}\nz.noSuchPropB(1, 2)", Fails: true},
+	{Name: "err-zerodiv-v1", Src: "1 / 0", Fails: true},
+	{Name: "err-zerodiv-v2", Src: "d := {|n| n // 0}\nd(5)", Fails: true},
+	{Name: "err-type-v1", Src: "1 + \"a\"", Fails: true},
+	{Name: "err-type-v2", Src: "t := [1]\nt * \"x\"", Fails: true},
+	{Name: "err-stopiter-v1", Src: "<{|| yield 1 if false}>.new.next", Fails: true},
+	{Name: "err-stopiter-v2", Src: "it := <{|i| yield i if i < 1; recur(i + 1)}>.new(0)\nit.next\nit.next", Fails: true},
+	{Name: "err-not-callable-v1", Src: "5()", Fails: true},
+	{Name: "err-not-callable-v2", Src: "f := nil\nf(1)", Fails: true},
+	{Name: "err-value-v1", Src: "(-4).sqrt", Fails: true},
+	{Name: "err-assert-v1", Src: "assertEq(1, 2)", Fails: true},
+	{Name: "err-assert-v2", Src: "a := 1\nassert(a == 2)", Fails: true},
+	{Name: "err-caught-then-pass", Src: "[1.try./(0).err?, \"\".try.{undefinedCaught}.err?, 1.try.nope.err?]", Fails: false},
 	{Name: "bear-patch-builtins", Src: "c := Int.bear({extra: 1})\nd := {a: 1}.patch(b: 2)\n[c['extra], Int['extra], d, Obj['b]]"},
 }
 
